@@ -4,6 +4,10 @@ CONSTANTS Scenarios = {}
   MaxN = 99
   Forms = {"seq"}
   StopKinds = {"close", "abandon"}
+  Reruns = {TRUE}
+  RerunScenarios = {}
+  RerunLens = {}
+  RerunForms = {"seq"}
   KeepHistory = FALSE
   Design = "allowed"
 INVARIANT NoTruncated
